@@ -6,7 +6,7 @@ from .. import common as C
 from .. import benchlib as B
 from .. import gen
 from .. import findings as F
-from .bench_props import bench_opts, fix_for_cpp, method_classes
+from .bench_props import bench_opts, fix_for_cpp, method_classes, split_padded
 from .c02 import mink_counts
 from .numbering import finish
 
@@ -127,8 +127,22 @@ def run(ctx, prop):
     distinct = set()
     cases = [("witness", w) for w in F.witness_cases(prop)]
     cases.append(("gen", gen.coverage_case("C04-coverage")))
+    cases.append(("gen", gen.coverage_case3("C04-coverage3")))
     for i in range(n):
         cases.append(("gen", fix_for_cpp(gen.gen_case(ctx.rng, bench_opts(ctx.rng), cid=f"C04-{ctx.seed}-{i}"))))
+    # this check always runs under the sanitizers: padded-bundle methods (finding bundlePadding,
+    # a memory error by themselves) get a case of their own so that they cannot end the run of
+    # everything declared after them
+    split = []
+    for origin, case in cases:
+        if origin == "gen":
+            rest, padded = split_padded(case)
+            split.append((origin, rest))
+            if padded is not None:
+                split.append((origin, padded))
+        else:
+            split.append((origin, case))
+    cases = split
     for origin, case in cases:
         with C.Scratch() as tmp:
             langs = ("c", "cpp", "rust")
@@ -143,6 +157,19 @@ def run(ctx, prop):
             hist["cases"] += 1
             r = e2.run(b, timeout=120)
             ctx.bump("evaluations")
+            if r["rc"] != 0 or not any(x.get("ev") == "end" for x in r["records"]):
+                # the well-formed calls themselves end in a memory error / crash (ASan build)
+                lc = r.get("last_call") or {}
+                mo_ = B.method_of(case, lc.get("iface"), lc.get("method")) if lc else None
+                cls_ = method_classes(case, mo_[1]) if mo_ else set()
+                hit = [kid for kid in listed if listed[kid]["classifier"] in cls_]
+                rec = {"error": "a well-formed call through generated stub and skeleton is a memory error / crash under the sanitizers",
+                       "rc": r["rc"], "last_call": lc, "stderr": r.get("stderr", "")[-400:]}
+                if hit or (cls_ & {"ooBeforeOi", "embeddedObjOrder"}):
+                    if hit:
+                        known_seen.setdefault(hit[0], rec["error"])
+                else:
+                    oracle_fail.append({"case": {"id": case["id"], "method": idl.render_member(mo_[1]).strip() if mo_ else None}, "failures": [rec]})
             # well-formed envelopes as the C stub produced them
             good = {}
             for a in B.analyse(ctx, case, b, r):
